@@ -193,10 +193,14 @@ def _selection(cx: Cx):
                         [e.data.get('value') for e in evs[bounds[k]:bounds[k + 1]] if e.kind == 'assign' and e.data.get('name') == cname]
                         == [Num(Fraction(k + 1))] for k in range(len(iters))):
                     counters.append(cname)
+            holders = [nm for nm, vv in env.items() if vv == Const(None)]
             for k, it_ev in enumerate(iters):
                 info = it_ev.data['info']
                 if info.get('kind') == 'iter' and info.get('var') is not None and strip_versions(sel.data.get('iter')) == RES and counters:
                     i_k, res_k = Num(Fraction(k)), info['var']
+                elif info.get('kind') == 'iter' and info.get('var') is not None and strip_versions(sel.data.get('iter')) == RES and holders:
+                    # the best RESULT is remembered instead of its position (None until one is found)
+                    i_k, res_k = info['var'], info['var']
                 elif info.get('kind') == 'enumerate' and strip_versions(info.get('seq')) == RES and info.get('start') == Num(Fraction(0)):
                     i_k, res_k = info['index'], Sub(RES, info['index'])
                 elif info.get('kind') == 'range' and info.get('lo') == Num(Fraction(0)) and info.get('hi') == App('len', (RES,)):
@@ -270,6 +274,14 @@ def _selection(cx: Cx):
                 # return value
                 v = p.last.data.get('value')
                 idx_vars = [n for n, t in env.items() if isinstance(v.items[0], Sub) and v.items[0].index == t and v.items[0].base == RES]
+                # best remembered as an object: the remembered result, or the last entry when none was found
+                best0 = strip_versions(v.items[0])
+                last = Sub(strip_versions(RES), Num(Fraction(-1)))
+                for nme, t in env.items():
+                    if t == Const(None) and best0 == last:
+                        idx_vars.append(nme)
+                    elif isinstance(t, Sym) and (best0 == t or (isinstance(best0, IfT) and best0.a == t and strip_versions(best0.b) == last)):
+                        idx_vars.append(nme)
                 if not idx_vars:
                     viol('R-GUARD', 'returns-results-at-best-index', f"grid_search returns {v.items[0]!r} as best: not results[<best index>]",
                          cx.where(fn, p.last.line))
